@@ -147,7 +147,7 @@ class BufferedReader(io.RawIOBase):
         return b[:n]
 
     def readall(self):
-        self.reader.seek(self.pos)
-        rv = self.reader.read()
-        self.pos += len(rv)
-        return rv
+        if self.size is None:
+            self.reader.seek(0, io.SEEK_END)
+            self.size = self.reader.tell() - self.offset
+        return self.read(max(0, self.size - self.pos))
